@@ -185,10 +185,48 @@ def closure_visit_events(F, b, defs, key_prefix):
     return out
 
 
-def events(b, defs, callee_name, key_prefix):
+_VISITS_PARAM = {}
+
+
+def _helper_visits_param(path, idx, depth=0):
+    """does the lowerer helper `path` visit (lower with `expr`) the sub-expression it receives as MIR argument `idx` (1-based)?"""
+    F = _FACTS.get("F")
+    k_ = (path, idx)
+    if k_ in _VISITS_PARAM:
+        return _VISITS_PARAM[k_]
+    _VISITS_PARAM[k_] = False
+    hb = F.body(path) if F is not None else None
+    res = False
+    if hb is not None and hb.mir and path.startswith("mir::lower::") and hir.last(path) not in ("expr", "block", "stmt") and depth < 2 and idx <= hb.mir["argc"]:
+        res = bool(events(hb, mir.Defs(hb), "expr", "arg%d" % idx, depth + 1))
+    _VISITS_PARAM[k_] = res
+    return res
+
+
+_FACTS = {}
+
+
+def events(b, defs, callee_name, key_prefix, depth=0):
     out = []
     for bi, t in mir.calls(b):
         if hir.last(mir.callee(t)) != callee_name and hir.last(mir.callee_def(t)) != callee_name:
+            # a private helper of the lowerer that lowers the sub-expression it is handed counts as the visit, at the call
+            if callee_name == "expr" and key_prefix is not None and depth < 2 and (mir.callee(t) or "").startswith("mir::lower::") and (mir.callee(t) or "") != b.path:
+                # (a helper that is handed several sub-expressions of ours is a dispatcher with an order of its own, not a visit)
+                exprs_ = {"arg%d" % j for j in range(1, b.mir["argc"] + 1) if "ast::Expr" in b.mir["locals"][j]["ty"] or "ast::Block" in b.mir["locals"][j]["ty"]}
+                hit, others = None, False
+                for i, a in enumerate(t["args"] or []):
+                    if i == 0 or not mir.is_place_op(a):
+                        continue
+                    k = mir.origin_key(b, defs, a[1])
+                    ds = {k} | deps(b, defs, a[1][0])
+                    if any(x == key_prefix or x.startswith(key_prefix + ".") for x in ds):
+                        if hit is None and _helper_visits_param(mir.callee(t), i + 1, depth):
+                            hit = bi
+                    elif any(any(x == e_ or x.startswith(e_ + ".") for x in ds) for e_ in exprs_ if not key_prefix.startswith(e_)):
+                        others = True
+                if hit is not None and not others:
+                    out.append(hit)
             continue
         if key_prefix is None:
             out.append(bi)
@@ -302,6 +340,8 @@ def _delegates(F, b):
 
 
 def rule_o1(F):
+    _FACTS["F"] = F
+    _VISITS_PARAM.clear()
     r = RuleResult("C08.O1", "visit order in the MIR lowerer: left before right, receiver before arguments, condition before branches, loops re-enter at the condition", floor=24)
     work = [(fn, chains, F.body(fn), fn) for fn, chains in CHAINS.items()]
     for fn, chains, b, label_fn in work:
